@@ -67,6 +67,24 @@ def gen_alm_op(rng, stack=None, **over):
     stack = stack or rng.choice(STACKS)
     convex = rng.random() < 0.7
     p = gen_feasible_problem(rng, convex=convex)
+    extra = {}
+    if rng.random() < 0.5:
+        # non-default switches of the line-search solvers (keys a stack does not have are ignored)
+        extra.update(eager=str(rng.choice([0, 1, 1])), recomp=str(rng.choice([0, 0, 1])),
+                     updcand=str(rng.choice([0, 0, 1])), updprox=str(rng.choice([0, 0, 1])))
+    if rng.random() < 0.2:
+        # isotropic family: f = q/2·‖x‖² + cᵀx (no quartic term), few / no general constraints, and a
+        # user Lipschitz estimate L_0 = Lγ_factor·q, so that the *rejected* first step x̂(1/q) of the
+        # initial step-size backtracking is the exact box-constrained minimiser (ψ has curvature q)
+        n = rng.choice([1, 1, 2, 3])
+        p = gen_feasible_problem(rng, convex=True, n=n, m=rng.choice([0, 0, 1]))
+        q = rng.choice([1.0, 2.0, 4.0])
+        p['Q'] = [q if i == j else 0.0 for i in range(n) for j in range(n)]
+        p['q4'] = [0.0] * n
+        if p['m']:
+            # keep D around g(x_feas) of the *new* f-independent g: g does not depend on Q, q4
+            pass
+        extra.update(L0=f2h(0.95 * q * rng.choice([1.0, 1.0, 0.5])), eager=str(rng.choice([1, 1, 0])))
     st = S.gen_start(rng, p)
     tol = rng.choice([1e-4, 1e-6, 1e-8])
     dtol = rng.choice([1e-4, 1e-6, 1e-8])
@@ -76,7 +94,7 @@ def gen_alm_op(rng, stack=None, **over):
                'almiter': str(rng.choice([20, 60, 100])), 'maxiter': str(rng.choice([200, 2000])),
                'usesig': str(rng.choice([0, 0, 1])), 'singlepen': str(rng.choice([0, 0, 0, 1])),
                'penfac': f2h(rng.choice([2.0, 10.0, 100.0])), 'initpen': f2h(rng.choice([0.0, 1.0, 16.0])),
-               'maxmult': f2h(rng.choice([1e9, 1e9, 1e9, 4.0, 1.0, 0.25]))})
+               'maxmult': f2h(rng.choice([1e9, 1e9, 1e9, 4.0, 1.0, 0.25])), **extra})
     if stack == 'fista':
         op['maxiter'] = '5000'
     for k, v in over.items():
@@ -210,7 +228,7 @@ def main(argv):
                        'Alpaqa/Proofs/PanocInv.lean', 'Alpaqa/Model/Panoc.lean', 'Alpaqa/Model/C07.lean'],
         harness_name='almrun', harness_sources=[], harness_builder=lambda: (exe, log),
         gen_ops=gen_ops, monitor=monitor, nontrivial=nontrivial,
-        n_quick=120, n_thorough=3000,
+        n_quick=120, n_thorough=12000,
         trusted_base=[
             'Lean 4.33 kernel + Mathlib (axioms: propext, Classical.choice, Quot.sound)',
             'translators gen_c15 (projection step kernel) and gen_c06 (ApproxKKT formula, status chain)',
